@@ -81,6 +81,8 @@ patch("runtime/preempt.go", [
 # across blocking operations (e.g. clientStream.mu across a replay that waits
 # for flow control), and without this the fake clock would stop for good.
 patch("runtime/runtime2.go", [
+    ("	valgrindStackID uintptr\n}",
+     "	valgrindStackID uintptr\n\n	// detrt: scheduling points passed by this goroutine at the virtual instant\n	// simNow of run simGen (spin guard: who is spinning?)\n	simSites uint32\n	simGen   uint32\n	simNow   int64\n}"),
     ("	waitReasonSyncCondWait:          true,\n	waitReasonSynctestWaitGroupWait: true,",
      "	waitReasonSyncCondWait:          true,\n	waitReasonSyncMutexLock:         true,\n	waitReasonSyncRWMutexRLock:      true,\n	waitReasonSyncRWMutexLock:       true,\n	waitReasonSyncWaitGroupWait:     true,\n	waitReasonSemacquire:            true,\n	waitReasonSynctestWaitGroupWait: true,"),
 ])
@@ -535,13 +537,25 @@ func simYield() {
 	// forever. Executing code costs time on a real machine: after simSpinLimit
 	// scheduling points at one virtual instant the current goroutine sleeps for
 	// a (doubling) virtual duration. Normal runs never get near the limit.
-	if now := gp.bubble.now; now != simsched.spinNow {
+	now := gp.bubble.now
+	if gp.simNow != now || gp.simGen != simsched.pctGen {
+		gp.simNow, gp.simGen, gp.simSites = now, simsched.pctGen, 0
+	}
+	gp.simSites++
+	if now != simsched.spinNow {
 		simsched.spinNow = now
 		simsched.spinSites = 0
 	} else {
 		simsched.spinSites++
-		if simsched.spinSites > simSpinLimit {
+		// Charge the goroutine that is actually spinning: the one that passed
+		// at least a quarter of the scheduling points of this instant. A
+		// goroutine that merely happens to run at a busy instant (an API call
+		// returning while byte-at-a-time I/O is going on) is let through; if
+		// nobody dominates, whoever is running when the count reaches four
+		// times the limit pays.
+		if simsched.spinSites > simSpinLimit && (gp.simSites >= simSpinLimit/4 || simsched.spinSites > 4*simSpinLimit) {
 			simsched.spinSites = 0
+			gp.simSites = 0
 			// escalate only while no virtual time has passed since the previous
 			// injected sleep ended (a genuine spin); isolated bursts of work at
 			// one instant just get a 1 microsecond sleep
@@ -556,10 +570,19 @@ func simYield() {
 				exit(4)
 			}
 			lv := simsched.spinLevel
-			if lv > 8 {
-				lv = 8
+			if lv > 13 {
+				lv = 13 // 1 us << 39: about 6 virtual days per sleep
 			}
 			d := int64(1000) << (3 * lv)
+			// never sleep past the next timer of the bubble (a deadline, a
+			// network delivery ...): the spinner burns CPU until the next event,
+			// then looks again
+			if next := gp.bubble.timers.wakeTime(); next > now && next-now < d {
+				d = next - now
+				if d < 1000 {
+					d = 1000
+				}
+			}
 			simsched.spinEnd = now + d
 			simsched.spinSleepers++
 			timeSleep(d)
